@@ -158,7 +158,8 @@ Inductive sop :=
 | ODelete (target : N) (auto : option N)
 | OCommit (extra : N)
 | OReopen (extra : N)
-| OCrash (extra : N).
+| OCrash (extra : N)
+| ODoctor (newseq : N).   (* close, doctor, reopen: table unchanged; doctor may reset the log sequence *)
 
 (* per-op output: result (Ok seq / Err), frame_count, next_frame_id *)
 Definition sout := (outcome N * N * N)%type.
@@ -214,6 +215,11 @@ Definition sstep (s : store) (op : sop) : store * sout :=
       let s1 := if dirty s then do_commit s extra else bump s extra in
       let s2 := match pending s1 with [] => s1 | _ => do_commit s1 0 end in
       (s2, observe s2 (Ok 0))
+  | ODoctor newseq =>
+      let s1 := if dirty s then do_commit s 0 else s in
+      let s2 := match pending s1 with [] => s1 | _ => do_commit s1 0 end in
+      let s3 := mkStore (committed s2) (pending s2) newseq (pending_inserts s2) (dirty s2) in
+      (s3, observe s3 (Ok 0))
   | OCrash extra =>
       (* no commit on drop; open -> recover_wal applies the pending records *)
       let s1 := match pending s with [] => mkStore (committed s) [] (seqno s + extra) 0 false | _ => do_commit s extra end in
